@@ -1,60 +1,165 @@
 /-
 Proofs for L6 (SimpleDB as a map): C01, C06, C17.
+Helper lemmas: DBLayers (layers, table stacks, merge), DBFlood (floodFill), DBCompact (shape of a compaction
+cycle), DBInv (invariant of reachable states, simulation by the reference map).
 -/
 import SST.Spec.DB
+import SST.Proofs.DBInv
 namespace SST.Proofs.DB
 open SST SST.DBM
 
 theorem get_refines (s : State) (k : Key) (ho : s.isOpen = true) (hc : s.closed = false)
     (hne : ∀ k v, memGet s k = some (some v) → v ≠ []) :
     get s k = (match abs s k with | some v => .value v | none => .notFound) := by
-  sorry
+  have _ := hne  -- not needed: `abs` reports a memstore value as it is
+  rw [get_abs]
+  simp only [ho, hc, Bool.not_true, Bool.or_false, Bool.false_eq_true, if_false]
+  cases abs s k <;> rfl
 
 /-- programs × schedules × configurations: whatever flush / rotation / compaction steps (with whatever table
 sizes, thresholds and ratios) are placed between the client calls, and however often the database is closed
 and re-opened with other options, every client call returns what the reference map returns. -/
 theorem db_refines_map (steps : List Step) :
-    (run {} steps).map (·.1) = specRun {} steps := by
-  sorry
+    (run {} steps).map (·.1) = specRun {} steps :=
+  run_sim steps {} {} rel_init
 
 /-- table numbers stay strictly increasing along the live list: the order the tables are re-loaded in after a
 restart (sorted by directory name) is the order they are stacked in -/
-theorem gens_ok (steps : List Step) : GensOk (runState {} steps) := by
-  sorry
+theorem gens_ok (steps : List Step) : GensOk (runState {} steps) :=
+  (reach_inv steps).gens
 
-theorem floodFill_spec (a : List Bool) : floodFill a = fillBetween a := by
-  sorry
+theorem floodFill_spec (a : List Bool) : floodFill a = fillBetween a :=
+  floodFill_eq a
 
-theorem selection_contiguous (a : List Bool) : Contiguous (floodFill a) := by
-  sorry
+theorem selection_contiguous (a : List Bool) : Contiguous (floodFill a) :=
+  floodFill_contiguous a
 
 /-- one compaction cycle changes no key's value, for any reachable state, any table sizes and options -/
 theorem compact_preserves_reads (steps : List Step) (sizes : List Nat) (k : Key) :
     let s := runState {} steps
     abs (compactStep s sizes).1 k = abs s k ∧ get (compactStep s sizes).1 k = get s k := by
-  sorry
+  intro s
+  have hi : Inv s := reach_inv steps
+  obtain ⟨h1, h2, _, _⟩ := compact_inv_stack s hi sizes
+  obtain ⟨g1, g2, g3, g4⟩ := compact_get s sizes k
+  constructor
+  · rw [abs_eq_stack _ h1, abs_eq_stack _ hi, h2 k]
+  · rw [get_eq, get_eq, g1, g2, g3, g4]
 
 /-- internal steps (rotation, flush, compaction, clean close + re-open) never change what a key reads as -/
 theorem reads_stable (steps : List Step) (st : Step) (k : Key)
     (hint : match st with | .rotate | .flush | .compact _ => True | _ => False) :
     abs (step (runState {} steps) st).1 k = abs (runState {} steps) k := by
-  sorry
+  have hi : Internal st := by
+    cases st <;> first | exact trivial | exact hint.elim
+  exact (internal_step _ (reach_inv steps) st hi).2.1 k
 
 theorem reads_stable_close_reopen (steps : List Step) (o : Opts) (k : Key)
     (hu : (runState {} steps).isOpen = true ∧ (runState {} steps).closed = false) :
     abs (runState {} (steps ++ [.close, .reopen o])) k = abs (runState {} steps) k := by
-  sorry
+  have hi := reach_inv steps
+  rw [runState_append]
+  generalize runState {} steps = s at hu hi ⊢
+  have hr : Rel s { m := abs s, isOpen := s.isOpen, closed := s.closed } := ⟨hi, rfl, rfl, fun _ => rfl⟩
+  have h1 := (step_sim s _ hr .close).1
+  have h2 := (step_sim _ _ h1 (.reopen o)).1
+  have hm := h2.m k
+  simp only [runState]
+  rw [hm]
+  simp [specStep, Spec.usable, hu.1, hu.2]
 
 theorem api_flavours_agree (s : State) (k v : Bytes) (rot : Bool) :
     putStr s k v rot = putBytes s (some k) (some v) rot ∧ deleteStr s k = deleteBytes s (some k) := by
-  sorry
+  refine ⟨?_, rfl⟩
+  unfold putStr
+  by_cases he : (k.isEmpty || v.isEmpty) = true
+  · simp [putBytes, he]
+  · simp [he]
 
 theorem rejected_call_no_effect (s : State) (st : Step) (r : Res)
     (hr : (step s st).2.1 = some r) (hbad : r = .rejected ∨ r = .notOpen) : (step s st).1 = s := by
-  sorry
+  have hput : ∀ k v rot r, (putBytes s k v rot).2 = r → (r = .rejected ∨ r = .notOpen) →
+      (putBytes s k v rot).1 = s := by
+    intro k v rot r h1 h2
+    cases k with
+    | none => rfl
+    | some kb =>
+      cases v with
+      | none => rfl
+      | some vb =>
+        simp only [putBytes] at h1 ⊢
+        by_cases he : (kb.isEmpty || vb.isEmpty) = true
+        · simp [he]
+        · by_cases hn : (!s.isOpen || s.closed) = true
+          · simp [he, hn]
+          · simp only [he, hn] at h1
+            subst h1
+            rcases h2 with (h2 | h2) <;> cases h2
+  have hdel : ∀ k r, (deleteBytes s k).2 = r → (r = .rejected ∨ r = .notOpen) →
+      (deleteBytes s k).1 = s := by
+    intro k r h1 h2
+    simp only [deleteBytes] at h1 ⊢
+    by_cases hn : (!s.isOpen || s.closed) = true
+    · simp [hn]
+    · simp only [hn] at h1
+      subst h1
+      rcases h2 with (h2 | h2) <;> cases h2
+  cases st with
+  | putB k v rot => exact hput k v rot r (Option.some.inj hr) hbad
+  | putS k v rot =>
+    simp only [step] at hr ⊢
+    rw [(api_flavours_agree s k v rot).1] at hr ⊢
+    exact hput _ _ rot r (Option.some.inj hr) hbad
+  | delB k => exact hdel k r (Option.some.inj hr) hbad
+  | delS k => exact hdel (some k) r (Option.some.inj hr) hbad
+  | get k => rfl
+  | rotate => simp only [step] at hr; split at hr <;> cases hr
+  | flush => cases hr
+  | compact sizes => simp only [step] at hr; split at hr <;> cases hr
+  | close =>
+    simp only [step, close] at hr ⊢
+    by_cases hn : (!s.isOpen || s.closed) = true
+    · simp [hn]
+    · simp only [hn] at hr
+      cases hr
+      rcases hbad with (h2 | h2) <;> cases h2
+  | reopen o => simp only [step] at hr; split at hr <;> cases hr
 
 theorem empty_or_nil_rejected (s : State) (k v : GoBytes) (rot : Bool)
     (h : k.getD [] = [] ∨ v.getD [] = []) : putBytes s k v rot = (s, .rejected) := by
-  sorry
+  cases k with
+  | none => rfl
+  | some kb =>
+    cases v with
+    | none => rfl
+    | some vb =>
+      have he : (kb.isEmpty || vb.isEmpty) = true := by
+        rcases h with (h | h) <;> simp at h <;> simp [h]
+      simp [putBytes, he]
+
+/-- a deleted key stays "not found" through any rotations, flushes and compactions that follow: neither the
+flush of the tombstone nor a compaction that drops or carries it makes an older value visible again -/
+theorem deleted_stays_deleted (pre post : List Step) (k : Key)
+    (hu : (runState {} pre).isOpen = true ∧ (runState {} pre).closed = false)
+    (hpost : ∀ st ∈ post, match st with
+      | .rotate | .flush | .compact _ => True
+      | _ => False) :
+    get (runState {} (pre ++ [.delS k] ++ post)) k = .notFound := by
+  have hi := reach_inv pre
+  rw [runState_append, runState_append]
+  generalize runState {} pre = s at hu hi ⊢
+  have hp : ∀ st ∈ post, Internal st := by
+    intro st hst
+    have := hpost st hst
+    cases st <;> first | exact trivial | exact this.elim
+  have hn : (!s.isOpen || s.closed) = false := by simp [hu.1, hu.2]
+  have hs2 : runState s [.delS k] = { s with w := s.w.set k none } := by
+    simp [runState, step, deleteStr, deleteBytes, hn]
+  rw [hs2]
+  have hi2 : Inv { s with w := s.w.set k none } :=
+    setW_inv s hi (by simp [hu.1, hu.2]) k none (by intro b hb; cases hb)
+  obtain ⟨_, h2, h3, h4⟩ := internal_run post _ hi2 hp
+  rw [get_abs, h2 k, h3, h4, setW_abs_none]
+  simp [hu.1, hu.2]
 
 end SST.Proofs.DB
